@@ -380,6 +380,11 @@ EXTRA = [
     (["FloatDistribution", {"low": 0.1, "high": 0.7, "step": 0.1}], 2),
     (["FloatDistribution", {"low": 1000.0, "high": 1001.0, "step": 0.3}], 2),
     (["DiscreteUniformDistribution", {"low": 0.05, "high": 0.95, "q": 0.15}], 3),
+    # the low end has MORE decimals than the step (grid points are low + i*step, not multiples of step)
+    (["FloatDistribution", {"low": 0.25, "high": 2.25, "step": 0.5}], 2),
+    (["FloatDistribution", {"low": 0.05, "high": 0.95, "step": 0.1}], 2),
+    (["FloatDistribution", {"low": 0.125, "high": 1.125, "step": 0.25}], 3),
+    (["DiscreteUniformDistribution", {"low": -0.375, "high": 0.625, "q": 0.5}], 3),
     # fine grids (1e5 - 2e5 points): a value a tenth of a step off the grid is NOT contained, however large (high-low)/step is
     (["FloatDistribution", {"low": 0.0, "high": 100.0, "step": 0.001}], 4),
     (["FloatDistribution", {"low": -50.0, "high": 50.0, "step": 0.0005}], 4),
